@@ -313,6 +313,13 @@ class C07(layfamily.Family):
         return spec, info
 
     # ------------------------------------------------------------------ observation helpers
+    def cross_extra(self, spec, info, ob):
+        """documents of the whole-encoder class (harness/crosscorr.py): the border style of every edge of every table
+        row, by page and role"""
+        from .. import crosscorr
+
+        return [[pno, b[:2], crosscorr.row_edges(r)] for pno, b, r in crosscorr.table_rows(ob)]
+
     @staticmethod
     def edges(rowblock, side):
         return [(d.borders.get(side) or {}).get("style") for d in rowblock.defs]
@@ -624,6 +631,9 @@ def run(res, build):
         for f in fails[:1]:
             res.fail(case, f)
     model_corr(res, [o for o in outs if o["status"] == "ok"])
+    from .. import crosscorr
+
+    crosscorr.run_cross(fam, res)
     return common.finish(
         res, build, RULE, layfamily.TRUSTED_COMMON, layfamily.ASSUME_COMMON,
         explanation="C07_first_page_no_header, C07_body_first(_default), C07_closing_style, "
@@ -638,6 +648,10 @@ def run(res, build):
 
 def replay(payload):
     case = payload.get("case") or {}
+    if case.get("cross"):
+        from .. import crosscorr
+
+        return crosscorr.replay_cross(FAM, case)
     if "spec" in case:
         o = common.pool_map(layfamily._worker, [(FAM, 0, 0, "quick", dict(spec=case["spec"], info=case["info"],
                                                                         history=case.get("history")))] * 4)[0]
